@@ -21,6 +21,10 @@ const char *harness_name = "c12_slip";
 /* what injected driver errors report: values the codec gives no meaning to (it does to EILSEQ and ENODATA),
  * varied with the injection position */
 static const int err_codes[] = { -EPROTO, -ENOSPC, -EIO, -EPIPE, -EPERM, -ETIMEDOUT, -4095, -65541, -0x7fffff00, -256, -ENOMEM };
+/* what a sink may report: the same, and the codes that mean something special elsewhere (-ENODATA is a source's
+ * end, -EILSEQ the decoder's own verdict) - from a sink they are errors like any other */
+static const int sink_codes[] = { -ENOSPC, -EIO, -ENODATA, -EPIPE, -EILSEQ, -ENOMEM, -EBUSY, -4095, -EINVAL, -65541, -ENODATA, -256, -EILSEQ };
+#define NSINKERR (sizeof sink_codes / sizeof sink_codes[0])
 #define NERR (sizeof err_codes / sizeof err_codes[0])
 static int ERR_SRC = -EPROTO, ERR_SINK = -ENOSPC;
 
@@ -627,7 +631,7 @@ check_errors(const unsigned char *p, size_t n, int sof, int srcchunk, int sinkch
         mk_source(&src, &ts, srcchunk, p, n);
         mk_sink(&snk, &tk, sinkchunk);
         ERR_SRC = err_codes[(k) % NERR];
-        ERR_SINK = err_codes[(k + 4) % NERR];
+        ERR_SINK = sink_codes[(k + n) % NSINKERR];
         ts.fail_at = k;
         int rc = rfc1055_encode(&ctx, &src, &snk);
         if (rc != ERR_SRC)
@@ -641,7 +645,7 @@ check_errors(const unsigned char *p, size_t n, int sof, int srcchunk, int sinkch
         mk_source(&src, &ts, srcchunk, p, n);
         mk_sink(&snk, &tk, sinkchunk);
         ERR_SRC = err_codes[(k) % NERR];
-        ERR_SINK = err_codes[(k + 4) % NERR];
+        ERR_SINK = sink_codes[(k + n) % NSINKERR];
         tk.fail_at = k;
         tk.oneshot = (int)(k & 1); /* every second injected failure is transient */
         int rc = rfc1055_encode(&ctx, &src, &snk);
@@ -659,7 +663,7 @@ check_errors(const unsigned char *p, size_t n, int sof, int srcchunk, int sinkch
         mk_source(&src, &ts, srcchunk, enc, encn);
         mk_sink(&snk, &tk, sinkchunk);
         ERR_SRC = err_codes[(k) % NERR];
-        ERR_SINK = err_codes[(k + 4) % NERR];
+        ERR_SINK = sink_codes[(k + n) % NSINKERR];
         ts.fail_at = k;
         int rc = rfc1055_decode(&ctx, &src, &snk);
         if (rc != ERR_SRC)
@@ -673,7 +677,7 @@ check_errors(const unsigned char *p, size_t n, int sof, int srcchunk, int sinkch
         mk_source(&src, &ts, srcchunk, enc, encn);
         mk_sink(&snk, &tk, sinkchunk);
         ERR_SRC = err_codes[(k) % NERR];
-        ERR_SINK = err_codes[(k + 4) % NERR];
+        ERR_SINK = sink_codes[(k + n) % NSINKERR];
         tk.fail_at = k;
         tk.oneshot = (int)(k & 1); /* every second injected failure is transient */
         int rc = rfc1055_decode(&ctx, &src, &snk);
